@@ -573,28 +573,22 @@ From Amgcl Require Import QcInst.
 Definition poisson1d_2 : crs QcS :=
   mkCrs 2 [[(0, qc 2 1); (1, qc (-1) 1)]; [(0, qc (-1) 1); (1, qc 2 1)]]%nat.
 
-(* 1-D Poisson (x) I_2, block_size 2, eps_strong = 1/4: the scalar problem has the single
-   aggregate {0,1} with both off-diagonal entries strong; the code, on the Kronecker product,
-   removes node 0, flags the diagonal entries of node 1 as strong ... *)
-Lemma pointwise_lifting_witness :
+(* 1-D Poisson (x) I_2, block_size 2, eps_strong = 1/4 (the witness of the former finding
+   C04-pointwise-lifting, fixed by /repo 2f75975 + 384f188): the pointwise aggregates are now the
+   lifted scalar ones *)
+Lemma pointwise_lifting_poisson :
+  pwm (kron_id 2 poisson1d_2) 2 = Some (mabs poisson1d_2) /\
   pointwise_aggregates (qc 1 16) 2 0 (kron_id 2 poisson1d_2) (repeat (qc 0 1) 4)
-    = AggOk 2 [-4; -3; 0; 1]%Z [[true; false]; [true; false]; [true; true]; [true; true]] /\
-  lifted_aggregates 2 (plain_aggregates (qc 1 16) poisson1d_2 (repeat (qc 0 1) 2))
+    = AggOk 2 [0; 1; 0; 1]%Z [[false; true]; [false; true]; [true; false]; [true; false]] /\
+  lifted_aggregates 2 (plain_aggregates (qc 1 16) (mabs poisson1d_2) (repeat (qc 0 1) 2))
     = AggOk 2 [0; 1; 0; 1]%Z [[false; true]; [false; true]; [true; false]; [true; false]].
-Proof. split; vm_compute; reflexivity. Qed.
+Proof. split; [|split]; vm_compute; reflexivity. Qed.
 
-Lemma pointwise_lifting_refuted :
-  exists (A : crs QcS) (eps2 : QcS) (b : nat) (junk junk' : vec QcS),
-    1 < b /\ wf A = true /\ ncols A = nrows A /\
-    aggregates_eqb (pointwise_aggregates eps2 b 0 (kron_id b A) junk)
-                   (lifted_aggregates b (plain_aggregates eps2 A junk')) = false.
-Proof.
-  exists poisson1d_2, (qc 1 16), 2%nat, (repeat (qc 0 1) 4), (repeat (qc 0 1) 2).
-  vm_compute. repeat split; reflexivity.
-Qed.
-
-(* ------------------------------------------------------------------ Ruge-Stuben: truncation tie *)
-(* symmetric weighted path 0 -1- 3 -1/2- 2 -1- 1 (graph Laplacian, all row sums zero) *)
+(* ------------------------------------------------------------------ Ruge-Stuben: truncation *)
+(* symmetric weighted path 0 -1- 3 -1/2- 2 -1- 1 (graph Laplacian, all row sums zero); eps_strong = 1/4,
+   eps_trunc = 1/2: the entry -1/2 = eps_trunc * (-1) of row 2 lies ON the threshold.  Witness of the former
+   finding C04-rs-truncation-tie (fixed by /repo 8384831): the entry is dropped AND counted in the
+   rescaling sum, the row of P sums to one again *)
 Definition rs_tie_A : crs QcS :=
   mkCrs 4 [[(0, qc 1 1); (3, qc (-1) 1)];
            [(1, qc 1 1); (2, qc (-1) 1)];
@@ -602,28 +596,17 @@ Definition rs_tie_A : crs QcS :=
            [(0, qc (-1) 1); (2, qc (-1) 2); (3, qc 3 2)]]%nat.
 Definition no_junk (A : crs QcS) : flags := map (fun r => map (fun _ => false) r) (rows A).
 
-(* eps_strong = 1/4, do_trunc, eps_trunc = 1/2: row 2 (zero row sum, strong C neighbours 1 and 3)
-   interpolates with the single weight 2/3: the entry -1/2 = eps_trunc * (-1) lies ON the threshold,
-   is dropped (Amin <= v) but not counted in d_neg (Amin < v), so no rescaling happens *)
-Lemma rs_trunc_tie_refuted :
+Lemma rs_trunc_tie_rescaled :
   is_symmetric rs_tie_A = true /\
   match rs_cf (qc 1 4) rs_tie_A (no_junk rs_tie_A), rs_transfer (qc 1 4) (qc 1 2) true rs_tie_A (no_junk rs_tie_A) with
   | Some (Sv, cf), TrOk P R =>
       rs_row_applicable rs_tie_A Sv cf 2 = true /\
-      seqb (row_sum (nth 2 (rows P) [])) (qc 2 3) = true /\
-      rs_rowsum_ok rs_tie_A Sv cf P = false
+      length (nth 2 (rows P) []) = 1%nat /\
+      seqb (row_sum (nth 2 (rows P) [])) (qc 1 1) = true /\
+      rs_rowsum_ok true (qc 1 2) rs_tie_A Sv cf P = true
   | _, _ => False
   end.
 Proof. vm_compute. repeat split; reflexivity. Qed.
-
-(* the same matrix without truncation, and with a threshold that is not hit, is fine *)
-Lemma rs_tie_A_no_trunc_ok :
-  match rs_cf (qc 1 4) rs_tie_A (no_junk rs_tie_A), rs_transfer (qc 1 4) (qc 1 2) false rs_tie_A (no_junk rs_tie_A),
-        rs_transfer (qc 1 4) (qc 1 4) true rs_tie_A (no_junk rs_tie_A) with
-  | Some (Sv, cf), TrOk P _, TrOk P' _ => rs_rowsum_ok rs_tie_A Sv cf P = true /\ rs_rowsum_ok rs_tie_A Sv cf P' = true
-  | _, _, _ => False
-  end.
-Proof. vm_compute. split; reflexivity. Qed.
 
 (* ------------------------------------------------------------------ Ruge-Stuben: no uninitialised read
    (after /repo commit 8cfa879 connect() writes every S.val cell) *)
@@ -1182,3 +1165,281 @@ Proof.
   intro H. destruct (plain_aggregates_partition eps2 A junk count id st H) as (_ & Hst & P).
   apply (partition_spec_ok (nrows A)); [rewrite Hst; apply strong_connections_length | exact P].
 Qed.
+
+(* ------------------------------------------------------------------ lifting: A (x) I_b with block_size b *)
+Section Lifting.
+Context {S : Scalar}.
+
+Definition kr (b : nat) (r : row S) : list (row S) := map (fun k => kron_row b k r) (seq 0 b).
+Definition abs_row (r : row S) : row S := map (fun e => (fst e, sabs (snd e))) r.
+
+Lemma kr_length b r : length (kr b r) = b.
+Proof. unfold kr. rewrite map_length, seq_length. reflexivity. Qed.
+
+Lemma smax_same (x : S) : smax x x = x.
+Proof. unfold smax. destruct (sltb x x); reflexivity. Qed.
+
+Lemma heads_cons (g : nat -> nat * S) (h : nat -> row S) ks cur :
+  pwm_heads (map (fun k => g k :: h k) ks) cur = fold_left (fun cur k => pwm_upd cur (fst (g k))) ks cur.
+Proof. unfold pwm_heads. revert cur; induction ks as [|k ks IH]; intro cur; simpl; auto. Qed.
+
+Lemma upd_fold_some (f : nat -> nat) m0 : forall n s m, m <= m0 -> (forall k, m0 <= f k) ->
+  fold_left (fun cur k => pwm_upd cur (f k)) (seq s n) (Some m) = Some m.
+Proof.
+  induction n as [|n IH]; intros s m Hm Hf; simpl; [reflexivity|].
+  specialize (Hf s) as Hfs. replace (Nat.min m (f s)) with m by lia. apply IH; auto.
+Qed.
+
+Lemma pwm_heads_kr b c v (tl : row S) : 0 < b -> pwm_heads (kr b ((c, v) :: tl)) None = Some (c * b)%nat.
+Proof.
+  intro Hb. unfold kr.
+  change (map (fun k => kron_row b k ((c, v) :: tl)) (seq 0 b))
+    with (map (fun k => ((c * b + k)%nat, v) :: kron_row b k tl) (seq 0 b)).
+  rewrite (heads_cons (fun k => ((c * b + k)%nat, v)) (fun k => kron_row b k tl)).
+  destruct b as [|b]; [lia|]. change (seq 0 (Datatypes.S b)) with (0%nat :: seq 1 b). cbn [fold_left pwm_upd fst].
+  rewrite (upd_fold_some _ (c * Datatypes.S b)%nat) by (intros; lia). f_equal. lia.
+Qed.
+
+Lemma pwm_heads_kr_nil b : pwm_heads (kr b (@nil (nat * S))) None = None.
+Proof.
+  unfold kr, pwm_heads. generalize (seq 0 b). intro l. induction l as [|k l IH]; simpl; auto.
+Qed.
+
+(* head column of the tail is larger *)
+Definition tail_gt (c : nat) (tl : row S) : Prop :=
+  match tl with [] => True | e :: _ => c < fst e end.
+
+Lemma pwm_scan_kr b k c v (tl : row S) acc : k < b -> tail_gt c tl ->
+  pwm_scan ((c + 1) * b) (kron_row b k ((c, v) :: tl)) acc
+  = (kron_row b k tl, Some (match acc with None => sabs v | Some m => smax m (sabs v) end)).
+Proof.
+  intros Hk Ht. unfold kron_row. simpl.
+  replace (Nat.leb ((c + 1) * b) (c * b + k)) with false by (symmetry; apply Nat.leb_gt; nia).
+  destruct tl as [|[c1 v1] tl]; simpl; [reflexivity|].
+  simpl in Ht. replace (Nat.leb ((c + 1) * b) (c1 * b + k)) with true by (symmetry; apply Nat.leb_le; nia).
+  reflexivity.
+Qed.
+
+Lemma pwm_pass_kr b c v (tl : row S) : tail_gt c tl -> forall ks acc,
+  (forall k, In k ks -> k < b) -> (acc = None \/ acc = Some (sabs v)) ->
+  pwm_pass ((c + 1) * b) (map (fun k => kron_row b k ((c, v) :: tl)) ks) acc
+  = (map (fun k => kron_row b k tl) ks, match ks with [] => acc | _ => Some (sabs v) end).
+Proof.
+  intros Ht ks. induction ks as [|k ks IH]; intros acc Hks Hacc; [reflexivity|].
+  cbn [map pwm_pass]. rewrite pwm_scan_kr by (auto; apply Hks; left; reflexivity). cbn [fst snd].
+  assert (Hacc' : Some (match acc with None => sabs v | Some m => smax m (sabs v) end) = Some (sabs v)).
+  { destruct Hacc as [->| ->]; [reflexivity|]. rewrite smax_same. reflexivity. }
+  rewrite Hacc'. rewrite IH by (auto; intros; apply Hks; right; assumption). cbn [fst snd].
+  destruct ks; reflexivity.
+Qed.
+
+Lemma sorted_strict_tail c v (tl : row S) : sorted_strict ((c, v) :: tl) = true ->
+  tail_gt c tl /\ sorted_strict tl = true.
+Proof.
+  destruct tl as [|e tl]; simpl; [auto|]. intro H. apply andb_prop in H as [H1 H2].
+  split; [apply Nat.ltb_lt; exact H1 | exact H2].
+Qed.
+
+(* one block row of A (x) I_b reduces to the row of norms *)
+Lemma pwm_loop_kr b : 0 < b -> forall (r : row S) fuel, sorted_strict r = true -> length r < fuel ->
+  pwm_loop fuel b (pwm_heads (kr b r) None) (kr b r) = abs_row r.
+Proof.
+  intros Hb r. induction r as [|[c v] tl IH]; intros fuel Hs Hf.
+  - rewrite pwm_heads_kr_nil. destruct fuel; reflexivity.
+  - destruct fuel as [|fuel]; [simpl in Hf; lia|].
+    rewrite pwm_heads_kr by exact Hb. cbn [pwm_loop].
+    replace (Nat.div (c * b) b) with c by (symmetry; apply Nat.div_mul; lia).
+    destruct (sorted_strict_tail c v tl Hs) as [Ht Hs'].
+    assert (Hp : pwm_pass ((c + 1) * b) (kr b ((c, v) :: tl)) None
+                 = (kr b tl, match seq 0 b with [] => None | _ => Some (sabs v) end)).
+    { unfold kr. apply pwm_pass_kr; auto. intros k Hk; apply in_seq in Hk; lia. }
+    rewrite Hp. cbn [fst snd]. rewrite IH by (auto; simpl in Hf; lia).
+    destruct b as [|b]; [lia|]. reflexivity.
+Qed.
+
+Lemma pwm_fuel_kr b (r : row S) : length r < pwm_fuel (kr b r) \/ b = 0%nat.
+Proof.
+  destruct b as [|b]; [right; reflexivity|left].
+  assert (G : forall (l : list (row S)) a, a <= fold_left (fun a r => a + length r)%nat l a).
+  { induction l as [|x l IHl]; intro a; simpl; [lia|]. specialize (IHl (a + length x)%nat). lia. }
+  unfold pwm_fuel, kr. change (seq 0 (Datatypes.S b)) with (0%nat :: seq 1 b). cbn [map fold_left].
+  pose proof (G (map (fun k => kron_row (Datatypes.S b) k r) (seq 1 b)) (0 + length (kron_row (Datatypes.S b) 0 r))%nat) as HG.
+  assert (HL : length (kron_row (Datatypes.S b) 0 r) = length r) by (unfold kron_row; apply map_length).
+  lia.
+Qed.
+
+Lemma pwm_groups_kr b (l : list (row S)) : pwm_groups (length l) b (flat_map (kr b) l) = map (kr b) l.
+Proof.
+  induction l as [|r l IH]; [reflexivity|]. cbn [length pwm_groups flat_map map].
+  rewrite firstn_app, skipn_app, kr_length, Nat.sub_diag. simpl.
+  rewrite firstn_all2 by (rewrite kr_length; lia). rewrite skipn_all2 by (rewrite kr_length; lia).
+  rewrite app_nil_r. simpl. rewrite IH. reflexivity.
+Qed.
+
+Lemma kron_rows b (A : crs S) : rows (kron_id b A) = flat_map (kr b) (rows A).
+Proof. reflexivity. Qed.
+
+Lemma flat_map_kr_length b (l : list (row S)) : length (flat_map (kr b) l) = (length l * b)%nat.
+Proof. induction l as [|r l IH]; simpl; [reflexivity|]. rewrite app_length, kr_length, IH. lia. Qed.
+
+(* pointwise_matrix (A (x) I_b, b) = the scalar pattern of A with the norms of its entries *)
+Lemma pwm_kron b (A : crs S) : 0 < b -> forallb sorted_strict (rows A) = true ->
+  pwm (kron_id b A) b = Some (mabs A).
+Proof.
+  intros Hb Hs. unfold pwm.
+  replace (Nat.eqb b 0) with false by (symmetry; apply Nat.eqb_neq; lia).
+  unfold nrows. rewrite kron_rows, flat_map_kr_length, Nat.div_mul by lia.
+  rewrite Nat.eqb_refl. cbn [negb]. rewrite pwm_groups_kr.
+  unfold mabs. f_equal. f_equal.
+  - simpl. apply Nat.div_mul. lia.
+  - rewrite map_map. apply map_ext_in. intros r Hr.
+    unfold pwm_block_row. rewrite forallb_forall in Hs.
+    destruct (pwm_fuel_kr b r) as [Hf|]; [|lia].
+    apply pwm_loop_kr; auto.
+Qed.
+
+(* ---- expansion of the pointwise flags on A (x) I_b *)
+Definition est (b : nat) (pre : list bool) (cols : list nat) : list (list bool * list nat) :=
+  map (fun k => (pre, map (fun c => (c * b + k)%nat) cols)) (seq 0 b).
+Definition flagf (ip : nat) (cf : nat * bool) : bool :=
+  (Nat.eqb (fst cf) ip || snd cf) && negb (Nat.eqb (fst cf) ip).
+
+Lemma combine_map_self {X Y} (g : X -> Y) (l : list X) : combine l (map g l) = map (fun x => (x, g x)) l.
+Proof. induction l as [|x l IH]; simpl; [reflexivity|]. rewrite IH. reflexivity. Qed.
+
+Lemma indexed_map_seq {X} (g : nat -> X) n : indexed (map g (seq 0 n)) = map (fun k => (k, g k)) (seq 0 n).
+Proof. unfold indexed. rewrite map_length, seq_length. apply combine_map_self. Qed.
+
+Definition cols_gt (c : nat) (tl : list nat) : Prop := match tl with [] => True | c1 :: _ => c < c1 end.
+
+Lemma take_lt_kr b k c0 tl sp excl : k < b -> cols_gt c0 tl ->
+  take_lt ((c0 + 1) * b) sp excl (map (fun c => (c * b + k)%nat) (c0 :: tl))
+  = ([sp && negb (Nat.eqb (c0 * b + k) excl)], map (fun c => (c * b + k)%nat) tl).
+Proof.
+  intros Hk Ht. cbn [map take_lt].
+  replace (Nat.ltb (c0 * b + k) ((c0 + 1) * b)) with true by (symmetry; apply Nat.ltb_lt; nia).
+  destruct tl as [|c1 tl]; [reflexivity|]. cbn [map take_lt]. simpl in Ht.
+  replace (Nat.ltb (c1 * b + k) ((c0 + 1) * b)) with false by (symmetry; apply Nat.ltb_ge; nia).
+  reflexivity.
+Qed.
+
+Lemma expand_step_kr b ip pre c0 tl f : 0 < b -> cols_gt c0 tl ->
+  expand_step b ip (est b pre (c0 :: tl)) (c0, f) = est b (pre ++ [flagf ip (c0, f)]) tl.
+Proof.
+  intros Hb Ht. unfold expand_step, est. rewrite indexed_map_seq, map_map.
+  apply map_ext_in. intros k Hk. apply in_seq in Hk. cbn [fst snd].
+  rewrite take_lt_kr by (auto; lia). cbn [fst snd]. unfold flagf. cbn [fst snd].
+  replace (Nat.eqb (c0 * b + k) (ip * b + k)) with (Nat.eqb c0 ip); [reflexivity|].
+  destruct (Nat.eqb_spec c0 ip) as [->|Hne]; symmetry; [apply Nat.eqb_refl | apply Nat.eqb_neq; nia].
+Qed.
+
+Lemma sorted_strict_cols c v (tl : row S) : sorted_strict ((c, v) :: tl) = true ->
+  cols_gt c (map fst tl) /\ sorted_strict tl = true.
+Proof.
+  destruct tl as [|e tl]; simpl; [auto|]. intro H. apply andb_prop in H as [H1 H2].
+  split; [apply Nat.ltb_lt; exact H1 | exact H2].
+Qed.
+
+Lemma expand_fold_kr b ip : 0 < b -> forall (r : row S) fl pre, sorted_strict r = true -> length fl = length r ->
+  fold_left (expand_step b ip) (combine (map fst r) fl) (est b pre (map fst r))
+  = est b (pre ++ map (flagf ip) (combine (map fst r) fl)) [].
+Proof.
+  intros Hb r. induction r as [|[c v] tl IH]; intros fl pre Hs Hl.
+  - simpl. rewrite app_nil_r. reflexivity.
+  - destruct fl as [|f fl]; [simpl in Hl; lia|]. cbn [map fst combine fold_left].
+    destruct (sorted_strict_cols c v tl Hs) as [Ht Hs'].
+    rewrite expand_step_kr by auto. rewrite IH by (auto; simpl in Hl; lia).
+    rewrite <- app_assoc. reflexivity.
+Qed.
+
+Lemma expand_block_kr b ip (r : row S) fl : 0 < b -> sorted_strict r = true -> length fl = length r ->
+  (forall c f, In (c, f) (combine (map fst r) fl) -> c = ip -> f = false) ->
+  expand_block b ip (kr b r) (combine (map fst r) fl) = map (fun _ => fl) (seq 0 b).
+Proof.
+  intros Hb Hs Hl Hd. unfold expand_block.
+  match goal with |- context [fold_left _ _ ?x] => replace x with (est b [] (map fst r)) end.
+  2:{ unfold kr, est. rewrite map_map. apply map_ext. intro k. unfold kron_row. rewrite !map_map. reflexivity. }
+  rewrite expand_fold_kr by auto. unfold est. rewrite map_map. apply map_ext. intro k. cbn [fst snd map length repeat].
+  rewrite app_nil_r. cbn [app].
+  revert fl Hl Hd. clear Hs. induction r as [|[c v] tl IH]; intros fl Hl Hd.
+  - destruct fl; [reflexivity | simpl in Hl; lia].
+  - destruct fl as [|f fl]; [simpl in Hl; lia|]. cbn [map fst combine]. f_equal.
+    + unfold flagf. cbn [fst snd]. destruct (Nat.eqb_spec c ip) as [E|E]; simpl.
+      * symmetry. apply (Hd c f); [left; reflexivity | exact E].
+      * apply andb_true_r.
+    + apply IH; [simpl in Hl; lia|]. intros c' f' Hin. apply Hd. right. exact Hin.
+Qed.
+
+(* ---- assembling the blocks *)
+Lemma combine_map_r {X Y Z} (g : Y -> Z) (a : list X) (l : list Y) :
+  combine a (map g l) = map (fun p => (fst p, g (snd p))) (combine a l).
+Proof.
+  revert l; induction a as [|x a IH]; intros [|y l]; simpl; try reflexivity. rewrite IH. reflexivity.
+Qed.
+
+Lemma indexed_map {X Y} (g : X -> Y) (l : list X) :
+  indexed (map g l) = map (fun ir => (fst ir, g (snd ir))) (indexed l).
+Proof. unfold indexed. rewrite map_length. apply combine_map_r. Qed.
+
+Lemma in_combine_seq {X} (l : list X) d : forall s i x, In (i, x) (combine (seq s (length l)) l) ->
+  s <= i < s + length l /\ x = nth (i - s) l d.
+Proof.
+  induction l as [|y l IH]; intros s i x H; simpl in H; [contradiction|].
+  destruct H as [H|H].
+  - injection H as <- <-. rewrite Nat.sub_diag. simpl. split; [lia | reflexivity].
+  - destruct (IH _ _ _ H) as [H1 H2]. split; [simpl; lia|].
+    replace (i - s)%nat with (Datatypes.S (i - Datatypes.S s)) by lia. exact H2.
+Qed.
+
+Lemma in_indexed {X} (l : list X) d i x : In (i, x) (indexed l) -> i < length l /\ x = nth i l d.
+Proof.
+  intro H. destruct (in_combine_seq l d 0 i x H) as [H1 H2]. rewrite Nat.sub_0_r in H2. split; [lia | exact H2].
+Qed.
+
+Lemma strong_row_diag_false eps2 (dia : vec S) i (r : row S) c f :
+  In (c, f) (combine (map fst r) (strong_row eps2 dia i r)) -> c = i -> f = false.
+Proof.
+  unfold strong_row. induction r as [|e r IH]; simpl; [tauto|]. intros [H|H] Hc.
+  - injection H as H1 H2. subst c. rewrite <- H2. rewrite Hc, Nat.eqb_refl. reflexivity.
+  - apply IH; assumption.
+Qed.
+
+Lemma map_fst_abs_row (r : row S) : map fst (abs_row r) = map fst r.
+Proof. unfold abs_row. rewrite map_map. apply map_ext. reflexivity. Qed.
+
+(* Theorem 5: coarsening A (x) I_b with block_size b = lifted coarsening of the scalar problem *)
+Lemma pointwise_lifting eps2 b (A : crs S) junk : 1 < b -> forallb sorted_strict (rows A) = true ->
+  pointwise_aggregates eps2 b 0 (kron_id b A) junk
+  = lifted_aggregates b (plain_aggregates eps2 (mabs A) junk).
+Proof.
+  intros Hb Hs. unfold pointwise_aggregates.
+  replace (Nat.eqb b 1) with false by (symmetry; apply Nat.eqb_neq; lia).
+  rewrite pwm_kron by (auto; lia).
+  destruct (plain_aggregates eps2 (mabs A) junk) as [| |c id st] eqn:E; try reflexivity.
+  destruct (plain_aggregates_partition eps2 (mabs A) junk c id st E) as (_ & Hst & _).
+  unfold remove_small. cbn [Nat.leb fst snd lifted_aggregates]. f_equal.
+  unfold lifted_flags.
+  assert (Hn : nrows (mabs A) = length (rows A)) by (unfold nrows, mabs; simpl; apply map_length).
+  rewrite Hn, kron_rows, pwm_groups_kr, indexed_map, map_map. cbn [fst snd].
+  rewrite Hst. unfold strong_connections. set (dia := diagonal (mabs A) false junk).
+  change (rows (mabs A)) with (map abs_row (rows A)). rewrite indexed_map, map_map. cbn [fst snd].
+  rewrite flat_map_concat_map, map_map. f_equal. apply map_ext_in. intros [i r] Hin. cbn [fst snd].
+  destruct (in_indexed (rows A) [] i r Hin) as [Hi Hr].
+  assert (Hsr : sorted_strict r = true).
+  { rewrite forallb_forall in Hs. apply Hs. rewrite Hr. apply nth_In. exact Hi. }
+  assert (Hsrow : srow (mabs A)
+             (map (fun ir => strong_row eps2 dia (fst ir) (abs_row (snd ir))) (indexed (rows A))) i
+           = combine (map fst r) (strong_row eps2 dia i (abs_row r))).
+  { unfold srow. change (rows (mabs A)) with (map abs_row (rows A)).
+    change (@nil (nat * S)) with (abs_row []) at 1. rewrite (map_nth abs_row). rewrite <- Hr, map_fst_abs_row.
+    f_equal.
+    rewrite (nth_indep _ [] ((fun ir : nat * row S => strong_row eps2 dia (fst ir) (abs_row (snd ir))) (0%nat, [])))
+      by (rewrite map_length, indexed_length; exact Hi).
+    rewrite (map_nth (fun ir : nat * row S => strong_row eps2 dia (fst ir) (abs_row (snd ir)))).
+    rewrite nth_indexed by exact Hi. cbn [fst snd]. rewrite <- Hr. reflexivity. }
+  rewrite Hsrow. apply expand_block_kr; auto; try lia.
+  - unfold strong_row, abs_row. rewrite !map_length. reflexivity.
+  - intros c0 f Hc. rewrite <- map_fst_abs_row in Hc. apply (strong_row_diag_false eps2 dia i (abs_row r) c0 f Hc).
+Qed.
+
+End Lifting.
